@@ -1,19 +1,23 @@
 /-
 Props/C13.lean — every input is either accepted or rejected with a documented diagnostic.
 
-The full property is FALSE for the model: outcomes of kind `internal` (an exception other than ParseError /
-TranslationError escaping `Program.process`) exist.  History of the witnesses: an INCLUDE of a missing file
-(repaired, see Props/C19.lean `include_missing_diag`); a program that runs past address 65535 (`ORG $FFFF`,
-`NOP`, `NOP`; repaired by fix 0addc5e, now `C13_formerWitness_diag`); a program of more than 65536 statements in
-which a PCR offset expression subtracts a label from a symbol that is neither a number nor an address
-(`calculate_address_offset` took the STATEMENT INDEX of the label for the constant; repaired by fix 9045646, now
-`C13_witness_diag`, 70002 lines).
-After fixes 0addc5e, dfad397, 145359a, 9045646 exactly ONE source is left, and that is a theorem
-(`assemble_internal_iff_expand`, `assemble_internal_only_from_expand_fuel`): more than 64 nested INCLUDE files
-(the fuel of `expand`, standing for Python's RecursionError) — `C13_deepWitness`.
-What holds, and is proved here: no stage of `assemble` diverges, the line parser never fails with anything but
-a diagnostic, and C13 itself for every input whose INCLUDE expansion does not run out of its nesting budget
-(`C13_of_expand_ne_internal`), in particular for every program without INCLUDE, of any length (`C13_no_include`).
+The full property (`C13_Statement`) is a THEOREM since batch 6: `C13_full`.
+
+History: outcomes of kind `internal` (an exception other than ParseError / TranslationError escaping
+`Program.process`) used to exist, and refuted it.  The witnesses: an INCLUDE of a missing file (repaired, see
+Props/C19.lean `include_missing_diag`); a program that runs past address 65535 (`ORG $FFFF`, `NOP`, `NOP`; repaired by
+fix 0addc5e, now `C13_formerWitness_diag`); a program of more than 65536 statements in which a PCR offset expression
+subtracts a label from a symbol that is neither a number nor an address (`calculate_address_offset` took the STATEMENT
+INDEX of the label for the constant; repaired by fix 9045646, now `C13_witness_diag`, 70002 lines).
+After fixes 0addc5e, dfad397, 145359a, 9045646 exactly ONE source was left, and that was a theorem
+(`assemble_internal_iff_expand`, `assemble_internal_only_from_expand_fuel`): more than 64 nested INCLUDE files (the
+fixed fuel of `expand`, standing for Python's RecursionError) — `C13_deepWitness`, 65 nested files.
+Batch 6: the Python code reports its own recursion limit as a diagnostic, and the model's nesting budget is
+`includeFuel fs` = number of files + 1, which is never exhausted because a file that is being included is rejected
+(`expand_includeFuel_ne_internal`, Lemmas/FrontInclude.lean).  So `assemble` never ends in `internal`
+(`assemble_never_internal`), never diverges (`assemble_not_diverged`), and C13 holds for every input (`C13_full`); the
+former witness is accepted (`C13_deepWitness_fixed`).  The conditional forms of the earlier batches
+(`C13_of_expand_ne_internal`, `C13_no_include`, `C13_partial`, ...) are kept; they are corollaries now.
 -/
 import CoCoVerif.Lemmas.LayoutFix
 import CoCoVerif.Lemmas.LayoutEval
@@ -48,7 +52,7 @@ theorem parseLine_no_internal (l : Str) : parseLine l ≠ .internal ∧ parseLin
 theorem parseLines_no_internal (ls : List Str) : parseLines ls ≠ .internal ∧ parseLines ls ≠ .diverged := by
   rcases parseLines_cases ls with ⟨r, h⟩ | h <;> rw [h] <;> simp
 
-/-! ### refutation of the full statement -/
+/-! ### the former refutations of the full statement -/
 
 /-- REPAIRED (fix 0addc5e; formerly `C13_witness`): `ORG $FFFF`, `NOP`, `NOP` -- the second NOP would sit at
 address 65536 -- is now a diagnostic ("outside the 64K address space") -/
@@ -57,12 +61,18 @@ def C13_formerWitness : List Str := [" ORG $FFFF\n", " NOP\n", " NOP\n"].map Str
 theorem C13_formerWitness_diag (fs : Files) : assemble fs C13_formerWitness = .diag :=
   diagProgram_sound (by decide +kernel) fs
 
-/-- witness 1: a chain of 65 nested INCLUDE files (`fsDeep` of Props/C19.lean).  The model's `expand` runs out of
-its fuel of 64, which stands for Python's RecursionError escaping `Program.process`. -/
+/-- the former witness 1: a chain of 65 nested INCLUDE files (`fsDeep` of Props/C19.lean).  The model's `expand` ran
+out of its fixed fuel of 64, which stood for Python's RecursionError escaping `Program.process`. -/
 def C13_deepWitness : List Str := [deepLine 63] ++ []
 
-theorem C13_deepWitness_internal : assemble fsDeep C13_deepWitness = .internal :=
-  deep63_internal (rest := []) rfl
+/-- RESTATED (was `C13_deepWitness_internal : assemble fsDeep C13_deepWitness = .internal`): with the nesting budget
+`includeFuel fsDeep` = 70 the 64 files below the program are expanded; the program is the single `NOP` of the innermost
+file and is accepted, with image `12` -/
+theorem C13_deepWitness_fixed :
+    ∃ a, assemble fsDeep C13_deepWitness = .ok a ∧ a.stmts.map stmtBytes = [some [0x12]] := by
+  obtain ⟨a, ha, hc⟩ := checkProgram_sound (lines := [nopLine] ++ [])
+    (check := fun a => a.stmts.map stmtBytes == [some [0x12]]) (by decide +kernel) fsDeep
+  exact ⟨a, by rw [C13_deepWitness, deep63_fixed, ha], by simpa using hc⟩
 
 /-- REPAIRED (formerly witness 2, `C13_witness_internal`): 70000 times ` ORG 0`, then `FAR LEAX X-FAR,PCR`, then
 `X EQU 1,2`.  `X` is a symbol that is neither a number nor an address, so `X-FAR` stays an address expression.
@@ -79,36 +89,26 @@ theorem C13_witness_diag : assemble [] C13_witness = .diag := C13_witness_diag' 
 theorem C13_witness_length : C13_witness.length = 70002 := by
   unfold C13_witness; rw [List.length_append, List.length_replicate]; rfl
 
-/-- C13 at full strength is false, through the deep-INCLUDE witness (the 70002-line witness used until fix
-9045646 is now a diagnostic, `C13_witness_diag`).  The ONLY remaining internal outcome is the model's recursion
-fuel in `expand` (64 nested INCLUDE files) standing for Python's RecursionError: `assemble_internal_iff_expand`
-below shows that nothing else can produce `internal`. -/
-theorem C13_Statement_false : ¬ C13_Statement := by
-  intro h
-  rcases h fsDeep C13_deepWitness with ⟨a, ha⟩ | ha <;> rw [C13_deepWitness_internal] at ha <;> cases ha
+/-! ### where internal errors could come from: nowhere -/
 
-/-- (kept under its old name) -/
-theorem C13_Statement_false_deep : ¬ C13_Statement := C13_Statement_false
-
-/-! ### where internal errors can still come from -/
-
-/-- **C13, the main positive result** (after fixes 0addc5e, dfad397, 145359a, 9045646).  An internal error of
-`Program.process` has exactly one cause: the INCLUDE expansion ran out of its nesting budget (more than 64
-nested files; in the model the fuel of `expand`, in Python a RecursionError).  Every other stage -- symbol table,
+/-- **C13, the main positive result of the batches before 6** (after fixes 0addc5e, dfad397, 145359a, 9045646).  An
+internal error of `Program.process` has at most one cause: the INCLUDE expansion ran out of its nesting budget (in the
+model the fuel of `expand`, in Python a RecursionError).  Every other stage -- symbol table,
 `resolve_symbols` (batch 4: with EQUs defined by expressions evaluated where they are used, `resolveF`), `translate`,
 the PCR size loop, the ORG check (batch 5, `orgOK`: a diagnostic), address assignment, `fix_addresses`, the evaluation
 of the EQU expressions on the final addresses (batch 4, `evalSyms`: `evalSyms_good`), the final symbol table --
 ends in a result or in a diagnostic on statements that came out of the parser, HOWEVER MANY there are.
-(Before fix 9045646 a second cause existed: more than 65536 statements, see `C13_witness`.) -/
+(Before fix 9045646 a second cause existed: more than 65536 statements, see `C13_witness`.)
+Since batch 6 the budget `includeFuel fs` is never exhausted either: `assemble_never_internal` below. -/
 theorem assemble_internal_only_from_expand_fuel (fs : Files) (lines : List Str)
     (h : assemble fs lines = .internal) :
-    ∃ parsed, parseLines lines = .ok parsed ∧ expand fs 64 [] parsed = .internal := by
+    ∃ parsed, parseLines lines = .ok parsed ∧ expand fs (includeFuel fs) [] parsed = .internal := by
   rcases parseLines_cases lines with ⟨parsed, hp⟩ | hp
   · refine ⟨parsed, hp, ?_⟩
     rw [assemble_eq] at h
-    have hf : front fs lines = expand fs 64 [] parsed := by unfold front; rw [hp]
+    have hf : front fs lines = expand fs (includeFuel fs) [] parsed := by unfold front; rw [hp]
     rw [hf] at h
-    cases he : expand fs 64 [] parsed with
+    cases he : expand fs (includeFuel fs) [] parsed with
     | ok ss0 =>
       rw [he] at h
       dsimp only at h
@@ -122,34 +122,59 @@ theorem assemble_internal_only_from_expand_fuel (fs : Files) (lines : List Str)
 
 /-- ... and conversely: an INCLUDE expansion that runs out of its budget IS an internal error of the whole run -/
 theorem assemble_internal_of_expand (fs : Files) (lines : List Str) (parsed : List Stmt)
-    (hp : parseLines lines = .ok parsed) (he : expand fs 64 [] parsed = .internal) :
+    (hp : parseLines lines = .ok parsed) (he : expand fs (includeFuel fs) [] parsed = .internal) :
     assemble fs lines = .internal := by
   unfold assemble
   rw [hp]
   dsimp only
   rw [he]
 
-/-- the internal errors of `Program.process` are exactly the exhausted INCLUDE nesting budgets -/
+/-- the internal errors of `Program.process` are exactly the exhausted INCLUDE nesting budgets (since batch 6 there are none of either: `assemble_never_internal`, `expand_never_internal`) -/
 theorem assemble_internal_iff_expand (fs : Files) (lines : List Str) :
     assemble fs lines = .internal ↔
-      ∃ parsed, parseLines lines = .ok parsed ∧ expand fs 64 [] parsed = .internal :=
+      ∃ parsed, parseLines lines = .ok parsed ∧ expand fs (includeFuel fs) [] parsed = .internal :=
   ⟨assemble_internal_only_from_expand_fuel fs lines,
    fun ⟨parsed, hp, he⟩ => assemble_internal_of_expand fs lines parsed hp he⟩
+
+/-- **the nesting budget is never exhausted** (batch 6; Lemmas/FrontInclude.lean `expand_ne_internal_of_fuel`: the chain
+of files being included holds no file twice and only files that exist, so it is no longer than `fs`) -/
+theorem expand_never_internal (fs : Files) (parsed : List Stmt) :
+    expand fs (includeFuel fs) [] parsed ≠ .internal := expand_includeFuel_ne_internal fs parsed
+
+/-- ... and every larger budget gives the same expansion -/
+theorem expand_budget_irrelevant (fs : Files) (m : Nat) (parsed : List Stmt) (h : includeFuel fs ≤ m) :
+    expand fs m [] parsed = expand fs (includeFuel fs) [] parsed := expand_fuel_irrelevant fs m parsed h
+
+/-- **no internal error**: `Program.process` never ends in an exception other than ParseError / TranslationError,
+whatever the program and the host files -/
+theorem assemble_never_internal (fs : Files) (lines : List Str) : assemble fs lines ≠ .internal := by
+  intro h
+  obtain ⟨parsed, _, he⟩ := assemble_internal_only_from_expand_fuel fs lines h
+  exact expand_never_internal fs parsed he
+
+/-- **C13 at full strength**: assembly of any input ends in an image or a documented diagnostic -/
+theorem C13_full : C13_Statement := by
+  intro fs lines
+  cases h : assemble fs lines with
+  | ok a => exact Or.inl ⟨a, rfl⟩
+  | diag => exact Or.inr rfl
+  | internal => exact absurd h (assemble_never_internal fs lines)
+  | diverged => exact absurd h (assemble_not_diverged fs lines)
 
 /-- the weaker statement that was the headline before fix 9045646 (the second disjunct, "more than 65536
 statements", can no longer occur); kept as a corollary -/
 theorem assemble_internal_only_from_expand (fs : Files) (lines : List Str)
     (h : assemble fs lines = .internal) :
     ∃ parsed, parseLines lines = .ok parsed ∧
-      (expand fs 64 [] parsed = .internal ∨
-        ∃ ss0, expand fs 64 [] parsed = .ok ss0 ∧ 65536 < ss0.length) := by
+      (expand fs (includeFuel fs) [] parsed = .internal ∨
+        ∃ ss0, expand fs (includeFuel fs) [] parsed = .ok ss0 ∧ 65536 < ss0.length) := by
   obtain ⟨parsed, hp, he⟩ := assemble_internal_only_from_expand_fuel fs lines h
   exact ⟨parsed, hp, Or.inl he⟩
 
 /-- the contrapositive, in the form "accepted or rejected with a diagnostic": C13 holds for every input whose
 INCLUDE expansion does not run out of its nesting budget -/
 theorem C13_of_expand_ne_internal (fs : Files) (lines : List Str) (parsed : List Stmt)
-    (hp : parseLines lines = .ok parsed) (he : expand fs 64 [] parsed ≠ .internal) :
+    (hp : parseLines lines = .ok parsed) (he : expand fs (includeFuel fs) [] parsed ≠ .internal) :
     (∃ a, assemble fs lines = .ok a) ∨ assemble fs lines = .diag := by
   cases h : assemble fs lines with
   | ok a => exact Or.inl ⟨a, rfl⟩
@@ -163,13 +188,13 @@ theorem C13_of_expand_ne_internal (fs : Files) (lines : List Str) (parsed : List
 /-- C13 for every input whose INCLUDE expansion succeeds (the bound `ss0.length ≤ 65536` of the former
 statement is gone; the old form is `C13_of_expand_ok'`) -/
 theorem C13_of_expand_ok (fs : Files) (lines : List Str) (parsed ss0 : List Stmt)
-    (hp : parseLines lines = .ok parsed) (he : expand fs 64 [] parsed = .ok ss0) :
+    (hp : parseLines lines = .ok parsed) (he : expand fs (includeFuel fs) [] parsed = .ok ss0) :
     (∃ a, assemble fs lines = .ok a) ∨ assemble fs lines = .diag :=
   C13_of_expand_ne_internal fs lines parsed hp (by rw [he]; simp)
 
 /-- the former statement of `C13_of_expand_ok` (with the bound that is no longer needed), a corollary -/
 theorem C13_of_expand_ok' (fs : Files) (lines : List Str) (parsed ss0 : List Stmt)
-    (hp : parseLines lines = .ok parsed) (he : expand fs 64 [] parsed = .ok ss0) (_hN : ss0.length ≤ 65536) :
+    (hp : parseLines lines = .ok parsed) (he : expand fs (includeFuel fs) [] parsed = .ok ss0) (_hN : ss0.length ≤ 65536) :
     (∃ a, assemble fs lines = .ok a) ∨ assemble fs lines = .diag :=
   C13_of_expand_ok fs lines parsed ss0 hp he
 
@@ -177,7 +202,7 @@ theorem C13_of_expand_ok' (fs : Files) (lines : List Str) (parsed ss0 : List Stm
 theorem C13_no_include (fs : Files) (lines : List Str) (parsed : List Stmt)
     (hp : parseLines lines = .ok parsed) (hni : parsed.all (fun s => !s.row.isInclude) = true) :
     (∃ a, assemble fs lines = .ok a) ∨ assemble fs lines = .diag :=
-  C13_of_expand_ok fs lines parsed parsed hp (expand_noinclude fs 63 [] parsed hni)
+  C13_of_expand_ok fs lines parsed parsed hp (expand_noinclude fs fs.length [] parsed hni)
 
 theorem parseLines_length_le : ∀ (ls : List Str) (r : List Stmt), parseLines ls = .ok r → r.length ≤ ls.length := by
   intro ls
@@ -365,18 +390,18 @@ theorem C13_b4_ok :
   ⟨checkProgram_sound (by decide +kernel) [], checkProgram_sound (by decide +kernel) [],
    checkProgram_sound (by decide +kernel) []⟩
 
-/-- What holds of C13.  (1)-(4): the PCR loop and the whole assembly never run out of fuel, and parsing fails
-only with a diagnostic.  (5): an internal error comes from the nesting budget of INCLUDE and from nothing else.
-(6): C13 itself whenever the INCLUDE expansion does not run out of that budget.
-(Finding: that `internal` outcome is reachable, `C13_deepWitness_internal`; hence `C13_Statement_false`.) -/
+/-- What was proved of C13 before batch 6 (kept; `C13_full` is the full statement).  (1)-(4): the PCR loop and the
+whole assembly never run out of fuel, and parsing fails only with a diagnostic.  (5): an internal error comes from the
+nesting budget of INCLUDE and from nothing else (and that budget is never exhausted: `expand_never_internal`, so both
+sides of (5) are false).  (6): C13 itself whenever the INCLUDE expansion does not run out of that budget (always). -/
 theorem C13_partial :
     (∀ ss : List Stmt, pcrLoop (ss.length + 1) ss ≠ .diverged) ∧
     (∀ fs lines, assemble fs lines ≠ .diverged) ∧
     (∀ l, parseLine l ≠ .internal ∧ parseLine l ≠ .diverged) ∧
     (∀ ls, parseLines ls ≠ .internal ∧ parseLines ls ≠ .diverged) ∧
     (∀ fs lines, assemble fs lines = .internal ↔
-      ∃ parsed, parseLines lines = .ok parsed ∧ expand fs 64 [] parsed = .internal) ∧
-    (∀ fs lines parsed, parseLines lines = .ok parsed → expand fs 64 [] parsed ≠ .internal →
+      ∃ parsed, parseLines lines = .ok parsed ∧ expand fs (includeFuel fs) [] parsed = .internal) ∧
+    (∀ fs lines parsed, parseLines lines = .ok parsed → expand fs (includeFuel fs) [] parsed ≠ .internal →
       (∃ a, assemble fs lines = .ok a) ∨ assemble fs lines = .diag) :=
   ⟨pcrLoop_not_diverged, assemble_not_diverged, parseLine_no_internal, parseLines_no_internal,
    assemble_internal_iff_expand, C13_of_expand_ne_internal⟩
